@@ -460,7 +460,16 @@ Definition step (s : st) (o : op) : st * res :=
 Definition lost_any (s : st) : bool := negb (andb (is_nil (lost_calls s)) (is_nil (lost_cancels s))).
 
 Definition landed_after_loop_end (ops : list op) : bool := lost_any (final step (init true true true) ops).
-Definition no_land_after_loop_end (ops : list op) : bool := negb (landed_after_loop_end ops).
+(* the hypothesis under which "no call is left hanging" is proved, as a predicate on the OP LIST alone: no hand-over
+   (ThreadLand k / CancelLand k) occurs after a LoopEnd in ops.  (PortalProofs: it implies landed_after_loop_end = false.) *)
+Fixpoint no_land_after (ended : bool) (ops : list op) : bool :=
+  match ops with
+  | [] => true
+  | LoopEnd :: r => no_land_after true r
+  | ThreadLand _ :: r | CancelLand _ :: r => if ended then false else no_land_after ended r
+  | _ :: r => no_land_after ended r
+  end.
+Definition no_land_after_loop_end (ops : list op) : bool := no_land_after false ops.
 
 (* the per-call future in the vocabulary of concurrent.futures.  SRunning is listed for completeness: _call_func
    only ever calls set_running_or_notify_cancel() on a cancelled future, so the state is never entered. *)
